@@ -861,7 +861,14 @@ func c05bWriter(c *Ctx, r *Report) {
 			if builtinName(info, x) == "copy" && len(x.Args) == 2 {
 				if se, ok := x.Args[1].(*ast.SliceExpr); ok && se.Low == nil && se.High != nil {
 					if pc.path(se.High) == "(NT + 1)" || pc.path(se.High) == "(1 + NT)" {
-						actionWidthOK = true
+						// the destination must have exactly that many cells: make([]int, NT+1)
+						if d := identObj(info, x.Args[0]); d != nil && defs.count[d] == 1 {
+							if mk, ok := unparen(defs.single[d]).(*ast.CallExpr); ok && builtinName(info, mk) == "make" && len(mk.Args) >= 2 {
+								if normAffine(pc.path(mk.Args[1])) == normAffine(pc.path(se.High)) {
+									actionWidthOK = true
+								}
+							}
+						}
 					}
 				}
 			}
